@@ -25,6 +25,7 @@ func init() {
 	vs.RegisterHarness("VerifC15CheckMissReport", VerifC15CheckMissReport)
 	vs.RegisterHarness("VerifC15SubmitPrices", VerifC15SubmitPrices)
 	vs.RegisterHarness("VerifC15CalculatePrices", VerifC15CalculatePrices)
+	vs.RegisterHarness("VerifC15CalculatePricesFeeds", VerifC15CalculatePricesFeeds)
 }
 
 // c15Clock is the bound of every clock, height and duration of the pure-kernel harness: [0, 2^61), so that
@@ -331,11 +332,12 @@ type c15Val struct {
 // status is untouched. C06-H3: the stored price of every feed equals CalculatePrice applied to the vector built
 // only from bonded, oracle-active validators whose price for that feed is specified and not older than the
 // interval, with quorum = floor(total bonded tokens * 0.30).
-func VerifC15CalculatePrices() {
-	nv, nf := vs.Param("nv"), vs.Param("nf")
-	if vs.Param("shapes") == 2 && vs.Case() == 1 {
-		nv, nf = vs.Param("nv2"), vs.Param("nf2")
-	}
+func VerifC15CalculatePrices() { c15CalculatePrices(vs.Param("nv"), vs.Param("nf")) }
+
+// VerifC15CalculatePricesFeeds: the same step with its own shape parameters (used for one validator, two feeds).
+func VerifC15CalculatePricesFeeds() { c15CalculatePrices(vs.Param("nv"), vs.Param("nf")) }
+
+func c15CalculatePrices(nv, nf int) {
 	e := c15Setup()
 	k := e.k
 
